@@ -575,6 +575,9 @@ func runC20(r *ev.Run) {
 			dim = 1 + rng.IntN(16)
 			nlist := 1 + rng.IntN(8)
 			nTrain = nlist + rng.IntN(120)
+			if rng.IntN(4) == 0 {
+				nTrain = nlist // exactly one training vector per cluster
+			}
 			mk = func() (comet.VectorIndex, error) { return comet.NewIVFIndex(dim, nlist, kind) }
 			desc = fmt.Sprintf("ivf dim=%d nlist=%d %s n=%d", dim, nlist, kind, nTrain)
 		case 1:
@@ -606,7 +609,7 @@ func runC20(r *ev.Run) {
 			}
 		}
 		fail := func(sig, what string) { r.ViolationAt("train-twice", i, sig, what, map[string]any{"config": desc}) }
-		build := func() comet.VectorIndex {
+		build := func(reuseBuffers bool) comet.VectorIndex {
 			idx, err := mk()
 			if err != nil {
 				fail("train-twice.constructor", err.Error())
@@ -620,6 +623,9 @@ func runC20(r *ev.Run) {
 				fail("train-twice.train-error", err.Error())
 				return nil
 			}
+			if reuseBuffers {
+				scribbleOver(nodes) // this caller reuses its training buffers; the other one keeps them: same index
+			}
 			for j, v := range train {
 				if j%2 == 0 {
 					if err := idx.Add(*comet.NewVectorNodeWithID(uint32(1000+j), cloneF32(v))); err != nil {
@@ -630,7 +636,7 @@ func runC20(r *ev.Run) {
 			}
 			return idx
 		}
-		a, b := build(), build()
+		a, b := build(false), build(true)
 		if a == nil || b == nil {
 			return
 		}
